@@ -1,6 +1,7 @@
 import Driver.SimParse
 import Q1t.Spec.Born
 import Q1t.Model.StabSim
+import Q1t.Model.Conj
 import Q1t.Gen.Conj
 import Q1t.Gen.PhaseTable
 /-!
@@ -47,6 +48,8 @@ partial def conjOfTerm (g : GateTerm Float) : Q1t.Tableau.Tab.Conj := fun ops =>
       if ops.length ≠ n then .error (.invalidNrBits ops.length n) else conjOps body ops false
   | .Loop _ iters _ n body =>
       if ops.length ≠ n then .error (.invalidNrBits ops.length n) else
+      -- `if !self.is_stabilizer() { return Err(NotAStabilizer) }` (also with zero iterations)
+      if !Q1t.Conj.allStabT Q1t.Gen.conjTable body then .error .notAStabilizer else
       (List.range iters).foldl (fun acc _ =>
         match acc with
         | .error e => .error e
